@@ -6,6 +6,7 @@ import (
 	"os"
 	"path/filepath"
 	"regexp"
+	"strconv"
 	"strings"
 	"time"
 
@@ -195,6 +196,58 @@ func init() {
 					continue // a loop of 9e18 iterations is what the template asks for, not a hang inside dyntpl
 				}
 				run("node", "tpl", src, []string{"v"}, []c13Val{vals[i]})
+			}
+		}
+		// sequences of renders on ONE context in which a deferred function, a pool, a modifier or the writer fails and
+		// the context is used again — with and without Reset in between: whatever a failed render leaves behind,
+		// the next one must not crash on it
+		seqT := []string{"{%= v|vdeferfail() %}x", "{%= v|vdefer(1) %}{%= v|vdeferfail() %}{%= v|vdefer(2) %}y", "{%= v|vdefer(3) %}z", "p{%= v|vfail() %}q", "{%= v|vacquire(4) %}{%= v|vdeferfail() %}",
+			"{% for i := 0; i < 2; i++ %}{%= v|vdeferfail() %}{% include seq2 %}{% endfor %}", "{% jsonquote %}{%= v|vdeferfail() %}{% exit %}{% endjsonquote %}"}
+		okSeq := true
+		for i, body := range seqT {
+			tree, err, pan := parseSafe([]byte(body), true)
+			if err != nil || pan != "" {
+				okSeq = false
+				break
+			}
+			dyntpl.RegisterTplKey("seq"+strconv.Itoa(i), tree)
+		}
+		for a := 0; okSeq && a < len(seqT); a++ {
+			for b := 0; b < len(seqT); b++ {
+				for mode := 0; mode < 3; mode++ { // 0: no reset, 1: Reset, 2: failing writer on the first render, no reset
+					ctx := dyntpl.NewCtx()
+					sig := fmt.Sprintf("render-sequence first=%s second=%s mode=%d", seqT[a], seqT[b], mode)
+					r.Count(sig, true)
+					r.Dist["render-sequence"]++
+					pan := ""
+					for step, k := range []int{a, b, b} {
+						ctx.SetStatic("v", 1)
+						var res rendered
+						if mode == 2 && step == 0 {
+							func() {
+								defer func() {
+									if x := recover(); x != nil {
+										res.Panic = fmt.Sprintf("%v\n%s", x, trimStack(stack()))
+									}
+								}()
+								res.Err = dyntpl.Write(&faultWriter{failAt: 1}, "seq"+strconv.Itoa(k), ctx)
+							}()
+						} else {
+							res = renderSafe("seq"+strconv.Itoa(k), ctx)
+						}
+						if res.Panic != "" {
+							pan = fmt.Sprintf("render #%d: %s", step+1, res.Panic)
+							break
+						}
+						if mode == 1 {
+							ctx.Reset()
+						}
+					}
+					if pan != "" && panicInRepo(pan) {
+						r.Violate(sig+" site="+panicSite(pan)+" panic", "a render on a context that an earlier render left with a failed deferred function / error panicked: "+firstLine(pan),
+							map[string]any{"first": seqT[a], "second": seqT[b], "mode": []string{"no reset", "Reset between renders", "first render on a failing writer"}[mode], "panic": pan})
+					}
+				}
 			}
 		}
 		// templates that include each other (a cycle of two and of three): must end with an error as well
